@@ -9,6 +9,9 @@ NOTE = ('Trusted: Lean 4.33 kernel; axioms within {propext, Classical.choice, Qu
         'Python generators/oracles; 64-bit usize.')
 
 CLAIMS = {
+ 'C11': dict(category='proof', technique='Lean 4 corollaries of the round-trip theorems, one per enumerated field and universally quantified over the field domain + exhaustive per-field value sweeps with exact expectations',
+   text='One theorem per field named by the property (record type/version, alert level/description, heartbeat type, ClientHello version / cipher ids / compression ids, ServerHello cipher/compression, HelloRetryRequest version, KeyUpdate, certificate-status type, certificate types and sig/hash algs of CertificateRequest, extension type, named groups, signature algorithms, DigitallySigned algorithms, SNI name type, status_request type, PSK modes, EC point formats, EC named group, CT version): for every value of the domain the parsed structure carries that value. Tie: 33 field sweeps over the whole domain (thorough) or a dense sample (quick) with hand-written exact expected output, on the implementation and the model.',
+   design_ref='DESIGN.md section 6 C11'),
  'C05': dict(category='proof', technique='Lean 4 theorems (dispatch by type over a table, per-variant content round trips, GREASE iff RFC 8701, Unknown preservation, list induction, dispatcher agreement, empty-extension and overrun rejections) + regenerated implementation dispatch map re-checked by decide +kernel + exhaustive type sweep',
    text='Theorems dispatch_known, content_roundtrip (all 26 typed variants), extension_roundtrip (typed / GREASE / Unknown through each dispatcher that decodes them), isGrease_iff (exactly the 16 RFC 8701 values), missing_arm_gives_unknown, extensions_roundtrip (lists by induction), extension_overrun / extensions_stop_at_overrun, empty_extension_with_data_rejected, typeOf_* and dispatchers_agree(_parse). Tie to the code: the type->variant map of the three dispatchers observed over ALL 65536 types and the TlsExtensionType::from map are regenerated into Gen/ExtDispatch.lean and proved equal to the specification in the kernel; every type x dispatcher is additionally executed against the Python specification and the model; all variants with well-formed contents from an independent encoder; tag-specific parsers swept over types.',
    design_ref='DESIGN.md section 6 C05'),
